@@ -61,10 +61,43 @@ ErrMism(r, o) ==
         ELSE {"err.content"})
        \cup (IF r.v = "ok" /\ o.err.stop \notin r.err.stops THEN {"err.stoplayer"} ELSE {})
 
+\* convenience accessors of the whole-packet results: functions of the layers the same result holds
+Linkish(k) == k \in {"eth", "sll", "vlan", "macsec"}
+ConvMism(o) ==
+  IF o.conv.has = 0 THEN {} ELSE
+  LET c == o.conv
+      LL == SelectSeq(o.layers, LAMBDA y : Linkish(y.k))
+      VL == SelectSeq(o.layers, LAMBDA y : y.k = "vlan")
+      IL == SelectSeq(o.layers, LAMBDA y : y.k \in {"ipv4", "ipv6"})
+      ids == [i \in 1..Len(VL) |-> VL[i].f[3]]
+      other == \E i \in 1..Len(o.layers) : ~Linkish(o.layers[i].k)
+      SameRange(p, q) == p.k = q.k /\ p.len = q.len /\ (p.off = q.off \/ p.len = 0) /\ p.num = q.num
+  IN (IF c.vlan_ids # ids THEN {"conv.vlan_ids"} ELSE {})
+     \cup (IF c.vlan # (IF Len(VL) = 0 THEN <<0, -1, -1>> ELSE IF Len(VL) = 1 THEN <<1, ids[1], -1>> ELSE <<2, ids[1], ids[2]>>) THEN {"conv.vlan"} ELSE {})
+     \cup (IF c.has = 1 THEN
+             \* ether_payload(): payload of the last link level layer, if it is announced by an ether type
+             \* (behind a Linux SLL header the protocol type decides whether there is an ether type at all: not constrained here)
+             (IF LL # <<>> /\ LL[Len(LL)].k # "sll" THEN LET p == LL[Len(LL)].p IN
+                                IF p.k = "ether" THEN (IF ~SameRange(c.epay, p) THEN {"conv.ether_payload"} ELSE {})
+                                ELSE (IF c.epay.k # "none" THEN {"conv.ether_payload"} ELSE {})
+              ELSE {})
+             \* ip_payload(): payload of the IP layer
+             \cup (IF IL # <<>> THEN (IF ~SameRange(c.ipay, IL[1].p) \/ c.ipay.frag # IL[1].p.frag THEN {"conv.ip_payload"} ELSE {})
+                   ELSE (IF c.ipay.k # "none" THEN {"conv.ip_payload"} ELSE {}))
+             \* payload_ether_type(): ether type behind the last link level header when nothing above it was decoded
+             \cup (IF c.pet = -2 THEN {}
+                   ELSE IF other THEN (IF c.pet # -1 THEN {"conv.payload_ether_type"} ELSE {})
+                   ELSE IF LL # <<>> /\ LL[Len(LL)].k \in {"eth", "vlan", "macsec"}
+                        THEN LET y == LL[Len(LL)]  et == IF y.k = "eth" THEN y.f[13] ELSE IF y.k = "vlan" THEN y.f[4] ELSE y.f[2] IN
+                             (IF c.pet # et THEN {"conv.payload_ether_type"} ELSE {})
+                   ELSE {})
+             \cup (IF c.frag = -2 THEN {} ELSE IF c.frag # (IF IL # <<>> THEN IL[1].p.frag ELSE 0) THEN {"conv.is_ip_payload_fragmented"} ELSE {})
+           ELSE {})
+
 RunMism(r, o, fam) ==
   (IF o.v = "panic" THEN {"panic"} ELSE IF r.v # o.v THEN {"verdict"} ELSE {})
   \cup (IF o.oob # 0 THEN {"oob"} ELSE {})
-  \cup (IF r.v = "ok" /\ o.v = "ok" THEN LayersMism(r, o, fam) \cup PayMism(r.pay, o.pay, "pay") ELSE {})
+  \cup (IF r.v = "ok" /\ o.v = "ok" THEN LayersMism(r, o, fam) \cup PayMism(r.pay, o.pay, "pay") \cup ConvMism(o) ELSE {})
   \cup (IF o.v # "panic" /\ r.v = o.v THEN ErrMism(r, o) ELSE {})
 
 \* ---------------------------------------------------------------------------
